@@ -228,30 +228,55 @@ def still_fails(cfg, ops, workdir, pred, model_ok):
     return pred(res)
 
 
-def ddmin(cfg, ops, workdir, pred, model_ok, budget=80):
-    """Delta debugging on the op list (keeps ops marked as setup: those starting with '!')."""
-    n = 2
-    runs = 0
-    while len(ops) >= 2 and runs < budget:
-        chunk = max(1, len(ops) // n)
+def _dd(items, flat, test, budget):
+    """Classic ddmin over `items` (each item a list of ops); returns (items, runs_used)."""
+    n, runs = 2, 0
+    while len(items) >= 2 and runs < budget:
+        chunk = max(1, len(items) // n)
         reduced = False
-        for i in range(0, len(ops), chunk):
-            cand = ops[:i] + ops[i + chunk:]
+        for i in range(0, len(items), chunk):
+            cand = items[:i] + items[i + chunk:]
             if not cand:
                 continue
             runs += 1
-            if still_fails(cfg, cand, workdir, pred, model_ok):
-                ops = cand
-                n = max(n - 1, 2)
-                reduced = True
+            if test(flat(cand)):
+                items, n, reduced = cand, max(n - 1, 2), True
                 break
             if runs >= budget:
                 break
         if not reduced:
             if chunk == 1:
                 break
-            n = min(len(ops), n * 2)
-    return ops
+            n = min(len(items), n * 2)
+    return items, runs
+
+
+def ddmin(cfg, ops, workdir, pred, model_ok, budget=80):
+    """Shrink an op list: cut everything before the last reset op, then delta-debug whole groups
+    (blocks), then single ops."""
+    reset, group = cfg.get("reset_token"), cfg.get("group_token")
+    if reset:
+        starts = [i for i, o in enumerate(ops) if o.split(" ", 1)[0] == reset]
+        if starts:
+            ops = ops[starts[-1]:]
+    test = lambda cand: still_fails(cfg, cand, workdir, pred, model_ok)  # noqa: E731
+    flat = lambda gs: [o for g in gs for o in g]  # noqa: E731
+    used = 0
+    if group:
+        groups, cur = [], []
+        for o in ops:
+            if o.split(" ", 1)[0] in (group, reset) and cur:
+                groups.append(cur)
+                cur = []
+            cur.append(o)
+        if cur:
+            groups.append(cur)
+        head, rest = groups[:1], groups[1:]   # keep the reset group
+        rest, used = _dd(rest, lambda gs: flat(head + gs), test, budget // 2)
+        ops = flat(head + rest)
+    keep = 1 if reset else 0
+    items, _ = _dd([[o] for o in ops[keep:]], lambda gs: ops[:keep] + flat(gs), test, budget - used)
+    return ops[:keep] + flat(items)
 
 
 # ---------------------------------------------------------------- findings
@@ -424,7 +449,7 @@ def main():
             ops = [fl["op"]]
         else:
             pred = lambda rr, sig=sig: any(x["signature"] == sig for x in rr["failures"])  # noqa: E731
-            ops = ddmin(cfg, ops, work, pred, False, budget=60 if tier == "quick" else 200)
+            ops = ddmin(cfg, ops, work, pred, False, budget=150 if tier == "quick" else 600)
         rp = write_replay(pid, re.sub(r"[^A-Za-z0-9_.-]", "_", sig)[-80:], {
             "property": pid, "kind": "monitor", "family": cfg["family"], "t1_index": r["ci"], "signature": sig,
             "clause": fl["clause"], "detail": fl["detail"], "seed": r["seed"], "ops": ops,
@@ -446,7 +471,7 @@ def main():
                 ops = [d["op"]]
             else:
                 ops = ddmin(cfg, ops, work, lambda rr: rr["disagreement"] is not None, True,
-                            budget=60 if tier == "quick" else 200)
+                            budget=150 if tier == "quick" else 600)
         has_input = any(v["found_input"] for v in violations)
         rp = write_replay(pid, "t1-%s-%d" % (cfg["family"], r["seed"]), {
             "property": pid, "kind": "t1-disagreement" if d else ("harness-crash" if crashed else "model-driver-failed"),
